@@ -66,7 +66,7 @@ class RunClass(stateworld.StateWorld):
 
     # ---------------------------------------------------------------- sample
     def _p_sample(self, rng):
-        return {"op": "sample", "slot": self._pick(rng), "L": rng.choice([0, 1, 2, 3, 4, 8, 8, 8]),
+        return {"op": "sample", "slot": self._pick(rng), "L": rng.choice([0, 1, 2, 3, 4, 5, 5, 6, 8, 8, 8]),
                 "entropy": new_entropy(rng)}
 
     def _a_sample(self, op):
@@ -109,6 +109,13 @@ class RunClass(stateworld.StateWorld):
                 raise Violation("c19.sample_wrong_sign", {"sample": rm.pstr(p)})
             if index is not None:
                 BATCH[("sample", k, index[p[0]])] += 1
+        if index is not None and got:
+            # the rows of one call are independent: generator j is missing from ALL L rows with
+            # probability 2^-L exactly (a call whose rows are coupled shows here, not in the
+            # pooled frequencies)
+            masks = [index[p[0]] for p in got]
+            for j in range(k):
+                BATCH[("absent", k, len(got), j, all(not (mk >> j) & 1 for mk in masks))] += 1
         self.oracle_steps += 1
         self.nontrivial = True
         self.stats["sample_calls"] += 1
@@ -419,6 +426,24 @@ def batch_oracles(merged, mode):
             if chunk:
                 tot.update(chunk)
     out = []
+    calls = {}
+    for key, c in tot.items():
+        if key[0] == "absent":
+            _, k, L, j, ab = key
+            d = calls.setdefault((k, L, j), [0, 0])
+            d[0] += c
+            d[1] += c if ab else 0
+    for (k, L, j), (ncalls, nabs) in sorted(calls.items()):
+        p0 = 2.0 ** (-L)
+        if ncalls * p0 < 20:
+            continue
+        z = abs(nabs - ncalls * p0) / (ncalls * p0 * (1 - p0)) ** 0.5
+        if z <= 6.2 and not (j == 0 and L in (1, 5)):
+            continue      # all are evaluated; one representative per (k, L in {1,5}) and every failure is listed
+        out.append(("c19.sample_rows_independent_k%d_L%d_g%d" % (k, L, j), z <= 6.2,
+                    {"statistic": "number of sample(L) calls in which generator j occurs in no row (z-score against 2^-L)",
+                     "k": k, "L": L, "generator": j, "calls": ncalls, "observed": nabs, "expected": ncalls * p0,
+                     "z": z, "threshold_sigma": 6.2}))
     for k in (1, 2, 3, 4):
         bins = [tot.get(("sample", k, i), 0) for i in range(1 << k)]
         n = sum(bins)
